@@ -404,6 +404,10 @@ def structured(seed: int) -> scenario.Scenario | None:
             f"pet {{ name ... on Dog {{ owner {{ ...{nxt} }} }} }}",
             f"friends {{ id friend {{ ...{nxt} }} }}",
             f"fav {{ ... on User {{ ...{nxt} }} }}",
+            # conditional containers (e47d9e8): a spread under a condition is unpacked, never a mixin
+            f"id ...{nxt} @include(if: true)",
+            f"... on User @skip(if: false) {{ name ...{nxt} }}",
+            f"friend {{ ... @include(if: true) {{ ...{nxt} }} }}",
         ])
 
     def chain(prefix, depth, tail=None):
@@ -451,7 +455,9 @@ def structured(seed: int) -> scenario.Scenario | None:
                 args.append(f"{an}: ${vn}")
         head = rng.choice(heads)
         if ftype == "User":
-            sel = rng.choice([f"...{head}", f"id ...{head}", f"friend {{ ...{head} }}", f"name friend {{ friend {{ ...{head} }} }}"])
+            sel = rng.choice([f"...{head}", f"id ...{head}", f"friend {{ ...{head} }}", f"name friend {{ friend {{ ...{head} }} }}",
+                              f"id ...{head} @skip(if: false)", f"... on User @include(if: true) {{ ...{head} }}",
+                              f"friend {{ ...{head} @include(if: true) pet {{ name }} }}"])
         elif ftype == "Fav":
             sel = f"__typename ... on User {{ ...{head} }} ... on Dog {{ owner {{ ...{head} }} }}"
         else:
